@@ -329,21 +329,22 @@ Theorem C02_ranges_every_schedule : forall P (R : Z -> list Z) (pay : Z -> Z -> 
 Proof. intros P R pay sz nr HP Hnr HR. exact (RangesSched.ranges_every_schedule P R true pay sz nr HP Hnr HR). Qed.
 Print Assumptions C02_ranges_every_schedule.
 
-(* ---- out_payload arrays that are not empty on entry (recorded findings reused-out-payload:nbx-unsorted / nary-no-senders) ----
-   guard: with output arrays that are empty on entry the two places return what was received (this is the situation of the
-   program theorems above); without the guard: refuted, the witnesses are what the replayed harness cases show *)
-Theorem C02_reused_out_payload_guard : forall junk got,
-  ReusedOutputs.nbx_unsorted_out junk [] got = (map fst got, map snd got) /\ ReusedOutputs.nary_out [] got = (map fst got, map snd got).
-Proof. exact ReusedOutputs.reused_guard. Qed.
-Print Assumptions C02_reused_out_payload_guard.
-Theorem C02_nbx_reused_out_payload_refuted : exists junk stale got,
-  stale <> [] /\ nth 0 (snd (ReusedOutputs.nbx_unsorted_out junk stale got)) [] <> nth 0 (map snd got) [] /\
-  length (fst (ReusedOutputs.nbx_unsorted_out junk stale got)) <> length got.
-Proof. exact ReusedOutputs.nbx_reused_out_payload_refuted. Qed.
-Print Assumptions C02_nbx_reused_out_payload_refuted.
-Theorem C02_nary_reused_out_payload_refuted : exists stale, stale <> [] /\ snd (ReusedOutputs.nary_out stale []) <> [].
-Proof. exact ReusedOutputs.nary_reused_out_payload_refuted. Qed.
-Print Assumptions C02_nary_reused_out_payload_refuted.
+(* ---- out_payload arrays that are not empty on entry (reused by the caller), sc_notify_payload ------------------------------
+   dispatch = the dispatcher since /repo 89355d2 (resets out_payload before the algorithm, like sc_notify_payloadv);
+   nbx_unsorted_out / nary_out = the two places that do not empty the array themselves.  The result of a call does not
+   depend on the initial content of out_payload and is exactly what was received *)
+Theorem C02_out_payload_initial_irrelevant : forall junk got initial,
+  ReusedOutputs.dispatch (ReusedOutputs.nbx_unsorted_out junk got) initial = (map fst got, map snd got) /\
+  ReusedOutputs.dispatch (ReusedOutputs.nary_out got) initial = (map fst got, map snd got).
+Proof. exact ReusedOutputs.out_payload_initial_irrelevant. Qed.
+Print Assumptions C02_out_payload_initial_irrelevant.
+(* the dispatcher BEFORE the repair (dispatch_old, array passed on as it was): refuted *)
+Theorem C02_old_dispatcher_reused_out_payload_refuted :
+  (exists junk initial got, nth 0 (snd (ReusedOutputs.dispatch_old (ReusedOutputs.nbx_unsorted_out junk got) initial)) [] <> nth 0 (map snd got) [] /\
+                            length (fst (ReusedOutputs.dispatch_old (ReusedOutputs.nbx_unsorted_out junk got) initial)) <> length got) /\
+  (exists initial, snd (ReusedOutputs.dispatch_old (ReusedOutputs.nary_out []) initial) <> []).
+Proof. exact ReusedOutputs.dispatch_old_refuted. Qed.
+Print Assumptions C02_old_dispatcher_reused_out_payload_refuted.
 
 (* NBX WITH ONE ITEM PER RECEIVER in the semantics with polls (cf. C01_nbx_every_schedule_partial; PARTIAL in the same sense: final states and
    "no rank is ever blocked" and "some continuation reaches a final state or the model's fuel mark" are proved for every schedule; fair termination is missing): in every
